@@ -151,8 +151,20 @@ def generator_case(rng):
         for e in ((1, 1), (1, 2), (2, 2), (3, 3), (3, 1)):
             b.add_edge(*e)
         charges = [1, 0, 0, 1, 1]
+        short_bools = [True]
+        short_bools2 = [True, False]
+        empty_charges = []
+        ks = [2, 3]
         pattern = [2, 0, 1]
+        flips, vperm, cperm = [1, -1, 1], [2, 3, 1], [1, 0]
+        small = cnfgen.CNF([[1, -2], [3]])
         calls = [
+            ("TseitinFormula/short-bools", lambda: cnfgen.TseitinFormula(g, short_bools), [g], [short_bools]),
+            ("TseitinFormula/short-bools2", lambda: cnfgen.TseitinFormula(g, short_bools2), [g], [short_bools2]),
+            ("TseitinFormula/empty", lambda: cnfgen.TseitinFormula(g, empty_charges), [g], [empty_charges]),
+            ("TseitinFormula/tuple", lambda: cnfgen.TseitinFormula(g, (True, False)), [g], []),
+            ("VanDerWaerden", lambda: cnfgen.VanDerWaerden(5, 2, 2, *ks), [], [ks]),
+            ("Shuffle/explicit", lambda: cnfgen.Shuffle(small, flips, vperm, cperm), [], [flips, vperm, cperm]),
             ("TseitinFormula", lambda: cnfgen.TseitinFormula(g, charges), [g], [charges]),
             ("GraphColoringFormula", lambda: cnfgen.GraphColoringFormula(g, 3), [g], []),
             ("DominatingSet", lambda: cnfgen.DominatingSet(g, 2), [g], []),
